@@ -90,7 +90,8 @@ def generate(rng: random.Random, tier: str) -> dict:
         flood = {"every": rng.choice([10, 10, 5, 50]), "start": rng.choice([0, t0, t0 + 100]), "end": dl + 50,
                  "kind": rng.choice(["notification", "other_response", "progress_foreign"])}
     cb = {"raise_at": sorted(rng.sample(range(0, 6), rng.choice([0, 0, 1, 2]))), "sleep": rng.choice([0, 0, 0, 0, 5, 300]),
-          "raise_kind": rng.choice(["RuntimeError", "RuntimeError", "TimeoutError", "LibCancelledError", "KeyError", "asyncio.TimeoutError", "OSError"])} if use_progress else None
+          "raise_kind": rng.choice(["RuntimeError", "RuntimeError", "TimeoutError", "LibCancelledError", "KeyError", "asyncio.TimeoutError", "OSError"]),
+          "callable_kind": rng.choice(["function", "function", "object", "wrapper"])} if use_progress else None
     wblock = None
     if cancel is not None and cancel["t"] > t0 + 1 and rng.random() < 0.15:
         # the outgoing side stops taking messages for a while around the moment the cancellation is noticed
@@ -337,7 +338,18 @@ def execute(scn: dict) -> dict:
         if token is not None:
             kw["cancellation_token"] = token
         if use_progress:
-            kw["progress_callback"] = cb
+            kind_cb = (scn["cb"] or {}).get("callable_kind", "function")
+            if kind_cb == "object":
+                class _CbObject:   # an object with an async __call__ is as good an async callable as a function
+                    async def __call__(self, progress, total, message):
+                        return await cb(progress, total, message)
+                kw["progress_callback"] = _CbObject()
+            elif kind_cb == "wrapper":
+                kw["progress_callback"] = lambda progress, total, message: cb(progress, total, message)   # returns the coroutine
+            else:
+                kw["progress_callback"] = cb
+            if kind_cb != "function":
+                sim.probe("progress_callback_is_not_a_plain_coroutine_function")
         try:
             res = await sm.send_message(rr, ws, "tools/call", copy.deepcopy(scn["params"]), **kw)
             st["outcome"] = ("return", res)
